@@ -92,6 +92,9 @@ type World struct {
 	Nodes  []*Node
 	Le     *logrus.Entry
 	rels   []func()
+	// ValueHook, if set before the first Watch is created, is called from every
+	// value callback of every Watch with the event being recorded (it may fill Aux).
+	ValueHook func(e *ValEvent)
 }
 
 // Node is one local identity: peer controller + real transport controller
@@ -320,6 +323,8 @@ type ValEvent struct {
 	UUID   uint64
 	// SeqAt[i] = number of hook events applied at node i when the callback ran.
 	SeqAt []int
+	// Aux is filled by World.ValueHook (nil otherwise).
+	Aux any
 }
 
 // Watch is a reference to an EstablishLinkWithPeer(S, D) directive with a
@@ -350,6 +355,9 @@ func (w *World) NewWatch(src, dst peer.ID) (*Watch, error) {
 		}
 		for _, n := range w.Nodes {
 			e.SeqAt = append(e.SeqAt, n.Seq())
+		}
+		if w.ValueHook != nil {
+			w.ValueHook(&e)
 		}
 		return e
 	}
